@@ -369,22 +369,25 @@ fn nesting_is_parsable(line: &str) -> bool {
     true
 }
 
-/// Parses a line that may be skipped: anything that is not a shallow, well formed line is no directive
+/// Reads a line that may be skipped: only its directive counts, whatever follows it
 fn scan_line(line: &str) -> Option<Document> {
-    if nesting_is_parsable(line) {
-        document::line(line).ok()
-    } else {
-        None
-    }
+    document::directive_head(line).ok()
+}
+
+/// Whether the line is one the line parser accepts
+fn well_formed(line: &str) -> bool {
+    nesting_is_parsable(line) && document::line(line).is_ok()
 }
 
 fn skip<'a>(
     iter: &mut dyn Iterator<Item = (usize, &'a str)>,
     context: &ParseContext,
     ni: NextItem,
-) -> (Option<(usize, &'a str)>, bool) {
+) -> (Option<(usize, &'a str)>, bool, bool) {
     let mut scoup_count = 0;
     let mut at_elif = false;
+    // the end of the text was reached in search of an .endif or .endmacro
+    let mut unterminated = false;
     let next = match ni {
         NextItem::NewLine => iter.next(),
         NextItem::EndFile => None,
@@ -393,13 +396,20 @@ fn skip<'a>(
             if ni == NextItem::EndMacro {
                 let name = context.macros.name.borrow().clone();
                 let mut items = vec![];
+                unterminated = true;
                 while let Some((line_num, line)) = iter.next() {
                     if let Some(item) = scan_line(line) {
                         if let Document::DirectiveLine(_, directive, _) = item {
                             if other == NextItem::EndMacro && directive == Directive::EndMacro
                                 || directive == Directive::EndM
                             {
-                                ret = iter.next();
+                                unterminated = false;
+                                // a closing line that is not well formed is handed on, to be reported
+                                ret = if well_formed(line) {
+                                    iter.next()
+                                } else {
+                                    Some((line_num, line))
+                                };
                                 break;
                             }
                         }
@@ -408,6 +418,7 @@ fn skip<'a>(
                 }
                 context.macros.macroses.borrow_mut().insert(name, items);
             } else {
+                unterminated = true;
                 while let Some((num, line)) = iter.next() {
                     if let Some(item) = scan_line(line) {
                         if let Document::DirectiveLine(_, directive, _) = item {
@@ -422,10 +433,18 @@ fn skip<'a>(
                                     || directive == Directive::ElIf
                                 {
                                     if scoup_count == 0 {
+                                        if !well_formed(line) {
+                                            // a line of the chain itself that is not well formed is handed on, to be reported
+                                            unterminated = false;
+                                            ret = Some((num, line));
+                                            break;
+                                        }
                                         if directive == Directive::Endif {
+                                            unterminated = false;
                                             ret = iter.next();
                                             break;
                                         } else if other == NextItem::EndIf {
+                                            unterminated = false;
                                             if directive == Directive::ElIf {
                                                 ret = Some((num, line));
                                                 at_elif = true;
@@ -448,7 +467,7 @@ fn skip<'a>(
             ret
         }
     };
-    (next, at_elif)
+    (next, at_elif, unterminated)
 }
 
 pub fn parse(input: &str, context: &ParseContext) -> Result<(), Error> {
@@ -462,9 +481,30 @@ pub fn parse_iter<'a>(
     context: &ParseContext,
 ) -> Result<(), Error> {
     let mut next_item = NextItem::NewLine;
+    // line of the directive that opened what is being skipped
+    let mut opened_at = 0;
 
     loop {
-        let (next, at_elif) = skip(iter, context, next_item);
+        let (next, at_elif, unterminated) = skip(iter, context, next_item);
+        if unterminated {
+            bail!(
+                "{} without its {}, {}",
+                if next_item == NextItem::EndMacro {
+                    ".macro"
+                } else {
+                    "conditional"
+                },
+                if next_item == NextItem::EndMacro {
+                    ".endmacro"
+                } else {
+                    ".endif"
+                },
+                CodePoint {
+                    line_num: opened_at,
+                    num: 2
+                }
+            );
+        }
         if let Some((line_num, line)) = next {
             next_item = NextItem::NewLine; // clear conditional flag to typical state
             let line_num = line_num + 1;
@@ -506,10 +546,12 @@ pub fn parse_iter<'a>(
                         if d == Directive::ElIf && !at_elif {
                             // reached while assembling: an earlier arm was taken, the rest of the chain is not
                             next_item = NextItem::EndChain;
+                            opened_at = line_num;
                         } else {
                             let item =
                                 d.parse(&d_op_args, &context, CodePoint { line_num, num: 2 })?;
                             next_item = item;
+                            opened_at = line_num;
                         }
                     }
                     Document::EmptyLine => {}
